@@ -39,10 +39,13 @@ GenNextIdRule ==
   \/ \E r \in Routes, h \in Hosts : Get(r, h)
   \/ \E d \in Ticks : Tick(d)
 
-\* One line per transition: [source, action, result, panicked, target], all numbers (no strings, so
-\* the line needs no escaping):  state  = [[[route#, host, size, id, age], ...], total]
-\*                                action = [op, route#, host, size, id, d]   op: 0 set, 1 get, 2 tick
-\*                                result = [hit, size, id, age]              (of a get; zeros otherwise)
+\* One line per transition: [source, action, result, panicked, target, lookups], all numbers (no
+\* strings, so the line needs no escaping):
+\*    state   = [[[route#, host, size, id, age], ...], total]
+\*    action  = [op, route#, host, size, id, d]   op: 0 set, 1 get, 2 tick
+\*    result  = [hit, size, id, age]              (of a get; zeros otherwise)
+\*    lookups = [[route#, host, hit, size, id, age], ...]  GetRes of the TARGET state for every key that
+\*              hits there (a key not listed must miss): the observable projection of the target state
 \* MIME types are not printed: in every MC/Gen configuration mime = MimeOf(id).
 RouteIx(r) == IF r = "/a" THEN 1 ELSE IF r = "/b" THEN 2 ELSE IF r = "/c" THEN 3 ELSE IF r = "/d" THEN 4 ELSE 0
 OpIx(n) == IF n = "set" THEN 0 ELSE IF n = "get" THEN 1 ELSE 2
@@ -50,11 +53,14 @@ B(x) == IF x THEN 1 ELSE 0
 StateOut(es, tot, now) ==
   <<[i \in 1..Len(es) |-> <<RouteIx(es[i].route), es[i].host, es[i].size, es[i].id, Age(es[i].t, now)>>], tot>>
 ResOut(g, now) == IF g.hit THEN <<1, g.size, g.id, now - g.t>> ELSE <<0, 0, 0, 0>>
+ObsOut(es, now) ==
+  { <<RouteIx(k[1]), k[2]>> \o ResOut(GetRes(es, k[1], k[2], now), now) :
+       k \in { kk \in Keys : GetRes(es, kk[1], kk[2], now).hit } }
 EdgeOut ==
   <<StateOut(entries, total, clock),
     <<OpIx(op'.name), RouteIx(op'.route), op'.host, op'.size, op'.id, op'.d>>,
     ResOut(op'.res, clock'), B(op'.panic),
-    StateOut(entries', total', clock')>>
+    StateOut(entries', total', clock'), ObsOut(entries', clock')>>
 EmitEdge     == PrintT("E" \o ToJson(EdgeOut))
 \* (the leading E keeps the driver from decoding millions of lines; it passes them to the harness as text)
 \* depth-bounded generation: print the edge, then keep the successor only while the SOURCE state is at
